@@ -92,6 +92,9 @@ func rangeOrigin(info *types.Info, fd *ast.FuncDecl, e ast.Expr) string {
 // (c) stores into a map element whose index list contains the range key, the stored value being the
 // range value, a literal or a call-free composite, (d) defines call-free locals, under call-free
 // conditions that read nothing the body writes. Returns the class for the evidence.
+// constructors: functions of the analysed packages whose whole body returns a fresh composite literal.
+var constructors map[*types.Func]bool
+
 func mapRangeMechanical(info *types.Info, rs *ast.RangeStmt) (string, bool) {
 	var keyObj, valObj types.Object
 	if id, ok := rs.Key.(*ast.Ident); ok && id.Name != "_" {
@@ -143,8 +146,13 @@ func mapRangeMechanical(info *types.Info, rs *ast.RangeStmt) (string, bool) {
 					return true
 				}
 				switch calleeName(info, x) {
-				case "builtin.len", "builtin.cap":
+				case "builtin.len", "builtin.cap", "builtin.make", "builtin.new":
 					return true
+				}
+				if constructors != nil && len(x.Args) == 0 {
+					if fn := calleeFunc(info, x); fn != nil && constructors[fn] {
+						return true // a function of the package that only returns a fresh literal
+					}
 				}
 				ok = false
 			case *ast.FuncLit:
@@ -237,6 +245,20 @@ func mapRangeMechanical(info *types.Info, rs *ast.RangeStmt) (string, bool) {
 					classes["constant flag"] = true
 					return true
 				}
+				// the loop's own element variable re-pointed to a fresh value
+				rw := false
+				if valObj != nil && objOf(info, l) == valObj && pure(rhs, &rw) && !rw {
+					return true
+				}
+				return false
+			case *ast.SelectorExpr:
+				// a field of the element the range value points to: touches only that element
+				root, _ := selChain(l)
+				rw := false
+				if root != nil && valObj != nil && objOf(info, root) == valObj && pure(rhs, &rw) && !rw {
+					classes["store into the element"] = true
+					return true
+				}
 				return false
 			case *ast.IndexExpr:
 				keyed := false
@@ -317,6 +339,33 @@ R06.7 the only state shared between the output files of a run, the remote-templa
 	r := loadRepo(c, packages.LoadSyntax, "", mainPatterns...)
 	listing := os.Getenv("MVCHECK_LIST") != ""
 	seenRanges := map[string]int{}
+	constructors = map[*types.Func]bool{}
+	for _, rel := range scopePkgs {
+		for fn, fd := range pkgSingleReturn(r.Pkg(rel)) {
+			e := ast.Unparen(fd.Body.List[0].(*ast.ReturnStmt).Results[0])
+			if u, ok := e.(*ast.UnaryExpr); ok && u.Op == token.AND {
+				e = u.X
+			}
+			if cl, ok := e.(*ast.CompositeLit); ok && fd.Type.Params.NumFields() == 0 {
+				fresh := true
+				ast.Inspect(cl, func(n ast.Node) bool {
+					if call, ok := n.(*ast.CallExpr); ok {
+						switch calleeName(r.Pkg(rel).TypesInfo, call) {
+						case "builtin.make", "builtin.new":
+						default:
+							if tv := r.Pkg(rel).TypesInfo.Types[call.Fun]; !tv.IsType() {
+								fresh = false
+							}
+						}
+					}
+					return true
+				})
+				if fresh {
+					constructors[fn] = true
+				}
+			}
+		}
+	}
 	for _, rel := range scopePkgs {
 		p := r.Pkg(rel)
 		info := p.TypesInfo
